@@ -8,11 +8,25 @@
   translated expression by expression.  Every theorem below that mentions `gcCfg` or `CelloGen.Reg` is re-checked
   against the regenerated file on every run.
 
-  Assumptions, stated where used: live addresses pairwise distinct and 8-aligned (`okOp`, what malloc gives); sizes as natural
-  numbers (no 2^64 wrap-around); destructors delete but do not allocate managed objects.  `C17_registry_exact` is the history
-  theorem for plain destructors (`noK`), with a ledger that is a function of the history; `C17_registry_exact_destructors` /
-  `C17_progress_destructors` are its counterpart for destructors that delete other objects (`K`), where the ledger transition of
-  a collection is a relation (the order in which the reclaimed objects are finalised is the sweep's slot order).
+  Assumptions, stated where used: a new object's address is non-NULL, 8-aligned and differs from the live managed ones
+  (`okOp`, what malloc gives); sizes as natural numbers (no 2^64 wrap-around); destructors delete but do not allocate managed
+  objects.  `C17_registry_exact` is the history theorem for plain destructors (`noK`); `C17_registry_exact_destructors` /
+  `C17_progress_destructors` are its counterpart for destructors that delete other objects (`K`), where the ledger transition
+  of a collection is a relation (the order in which the reclaimed objects are finalised is the sweep's slot order) —
+  `C17_ledger_choice_irrelevant` shows that every ledger the relation allows has the same members, and `ReachK` carries no
+  well-formedness premise: `C17_registry_exact_destructors` is proved by induction over the history.
+
+  Three regions in which the code as it is departs from the property text are exhibited by `…_refuted` theorems on concrete
+  witnesses instead of being folded into the ledger:
+   * `C17_null_del_in_sweep_refuted` — a destructor that calls `del(NULL)`: harmless under an explicit `del`, but during
+     GC_Sweep's finalisation GC_Rem_Ptr matches NULL against a struck-off pending slot and runs `dealloc(destruct(NULL))`
+     (hypothesis `NoNull K` of the destructor theorems);
+   * `C17_stopped_window_refuted` — `new` / `del` while the collector is stopped are ignored by the registry (F23); the ledger of
+     the property text (`ReachI`, `idealStep`: a function of the history) is met only outside that window
+     (`C17_registry_exact_ideal_partial`);
+   * `C17_dealloc_refuted`, `C17_dealloc_reuse_refuted` — `dealloc` / `dealloc_root` (src/Alloc.c) release a registered object
+     without telling the collector: the stale entry stays, and when malloc hands the address out again GC_Set counts it twice
+     and keeps the old root flag (`Reach` covers objects released through `del` / `del_root` / the collector only).
 -/
 import Cello.Registry
 import CelloGen.Reg
@@ -25,6 +39,8 @@ import CelloProofs.Lemmas.RegistryHistory
 import CelloProofs.Lemmas.RegistryKills
 import CelloProofs.Lemmas.RegistryKillsHist
 import CelloProofs.Lemmas.RegistryInvB
+import CelloProofs.Lemmas.RegistryOrder
+import CelloProofs.Lemmas.RegistrySpec
 
 namespace Cello.Registry
 open RH
@@ -100,14 +116,19 @@ theorem C17_rehash (c : Cfg) (r : Reg) (inv : Inv0 (hashOf c) r.slots) (newSize 
 
 /-- **Sweep compaction** (the `while (i < nslots)` loop of GC_Sweep, including the wrap-around case in which the shift moves
     slot 0 into slot n−1): it terminates; afterwards the table satisfies the invariant and stores exactly the entries that
-    are marked or roots; every other entry is on the pending list exactly once; the item count dropped by their number. -/
+    are marked or roots; every other entry is on the pending list exactly once; the item count dropped by their number.
+    `ni` is the `nitems` counter the loop decrements: the hypothesis `occ s ≤ ni` (it counts at least the occupied slots; every
+    registry-level theorem has `nitems = occ`) is what makes the model's truncated `ni - 1` the subtraction the C code performs
+    on `size_t` — without it the C counter would wrap to 2^64 − 1 where the model says 0. -/
 theorem C17_sweep_spec {n : Nat} (hash : Nat → Nat) (s : Slots Nat Payload n) (ni : Nat) (inv : Inv0 hash s)
-    (hroom : occ s < n ∨ n = 0) :
+    (hroom : occ s < n ∨ n = 0) (hni : occ s ≤ ni) :
     ∃ (s' : Slots Nat Payload n) (removed : List Ent),
       sweepLoop (2 * n + 1) s 0 #[] ni = some (s', (removed.map (fun x => some x.key)).toArray, ni - removed.length) ∧
+      removed.length ≤ ni ∧
       Inv0 hash s' ∧ (∀ e, Mem s e ↔ Mem s' e ∨ e ∈ removed) ∧ (∀ e, Mem s' e → Keep e) ∧ (∀ e, e ∈ removed → ¬ Keep e) ∧
-      (∀ e, e ∈ removed → ¬ Mem s' e) ∧ removed.Nodup ∧ occ s' + removed.length = occ s :=
-  sweepLoop_total hash s ni inv hroom
+      (∀ e, e ∈ removed → ¬ Mem s' e) ∧ removed.Nodup ∧ occ s' + removed.length = occ s := by
+  obtain ⟨s', removed, h1, h2, h3, h4, h5, h6, h7, h8⟩ := sweepLoop_total hash s ni inv hroom
+  exact ⟨s', removed, h1, by omega, h2, h3, h4, h5, h6, h7, h8⟩
 
 /-- **GC_Sweep as a whole** against a ledger: from a state whose entries are the ledger's (with mark bits `mk`), the
     sweep, the mark clearing, GC_Resize_Less and the finalisation leave exactly the roots and the marked objects,
@@ -139,12 +160,15 @@ structure Exact (c : Cfg) (r : Reg) (L : Ledger) : Prop where
   /-- no object is waiting to be finalised outside a collection -/
   pending : r.pending = #[]
 
-/-- **C17.**  For every history of allocations (managed, root, raw), deletions, collections with an arbitrary mark set
-    (explicit, or triggered by an allocation that reaches the threshold), `stop` and `start`, in which a new object's address
-    is 8-aligned and differs from the live managed ones, at every step: `mem` holds exactly for the objects allocated through
-    the running collector and neither deleted nor reclaimed, each is recorded once with its allocation-time root flag,
-    `nitems` is their number, their addresses lie within `[minptr, maxptr]`, all marks are clear and the table satisfies the
-    robin-hood invariant with an empty slot.  `Reach` quantifies over all histories and all their prefixes. -/
+/-- **C17.**  For every history of allocations (managed, root, raw), deletions (`del`, `del_root`, `del_raw`), collections with
+    an arbitrary mark set (explicit, or triggered by an allocation that reaches the threshold), `stop` and `start`, in which a
+    new object's address is non-NULL, 8-aligned and differs from the live managed ones, at every step: `mem` holds exactly for
+    the objects allocated through the running collector and neither deleted (while it runs) nor reclaimed, each is recorded once
+    with its allocation-time root flag, `nitems` is their number, their addresses lie within `[minptr, maxptr]`, all marks are
+    clear and the table satisfies the robin-hood invariant with an empty slot.  `Reach` quantifies over all histories and all
+    their prefixes.  The ledger `ledgerStep` follows the code in the stopped window (allocation not recorded, deletion ignored:
+    F23); against the ledger of the property text this is `C17_registry_exact_ideal_partial` + `C17_stopped_window_refuted`.
+    Objects released with `dealloc` / `dealloc_root` are outside `Op`: `C17_dealloc_refuted`. -/
 theorem C17_registry_exact (r : Reg) (L : Ledger) (h : Reach gcCfg r L) : Exact gcCfg r L := by
   have hwf := reach_wf gcCfg gcCfg_good r L h
   refine ⟨wf_mem gcCfg r L hwf, hwf.core.ents, hwf.core.inv.distinct, ⟨wf_count gcCfg r L hwf, hwf.count⟩,
@@ -179,20 +203,24 @@ theorem C17_invB_sound (r : Reg) (h : invB gcCfg r = true) :
     nested recursion GC_Rem → GC_Rem_Ptr → destructor → GC_Rem … of the model terminates within the fuel the model provides
     and refines the same recursion on (ledger, pending addresses) `absExec`: an address waiting on the pending list is struck
     off and finalised (the repaired defect F24), a registered one is erased and finalised, anything else is ignored; the
-    deallocation trace is the abstract one; the resulting state is well formed for the resulting ledger; nothing is added. -/
-theorem C17_rem_nested (K : Nat → List Nat) (r : Reg) (L : Ledger) (h : WFP gcCfg r L) (x : Nat) :
+    deallocation trace is the abstract one; the resulting state is well formed for the resulting ledger; nothing is added.
+    Hypotheses: no destructor passes NULL to `del` (`NoNull K`) and the pointer removed is not NULL unless no sweep is in
+    progress — GC_Rem_Ptr compares the raw words of the pending list with the pointer, and a struck-off slot holds NULL
+    (excluded region: `C17_null_del_in_sweep_refuted`). -/
+theorem C17_rem_nested (K : Nat → List Nat) (hK : NoNull K) (r : Reg) (L : Ledger) (h : WFP gcCfg r L) (x : Nat)
+    (hx : x ≠ 0 ∨ r.pending = #[]) :
     ∃ r' a' t, gcRem gcCfg K r x = some (r', t) ∧
       absExec K r.running (nestFuel r) (L, pendList r) (.rem x) = some (a', t) ∧
       WFP gcCfg r' a'.1 ∧ pendList r' = a'.2 ∧ r'.running = r.running ∧ Abs.size a' ≤ Abs.size (L, pendList r) := by
-  obtain ⟨r', a', t, h1, h2, h3, h4, h5, _, h7⟩ := gcRem_sim gcCfg gcCfg_good K r L h x
+  obtain ⟨r', a', t, h1, h2, h3, h4, h5, _, h7⟩ := gcRem_sim gcCfg gcCfg_good K hK r L h x hx
   exact ⟨r', a', t, h1, h2, h3, h4, h5, h7⟩
 
 /-- the simulation itself, for every fuel and both commands (finalise `p`, remove `x`): the model fails exactly when the
     abstract recursion runs out of fuel, and otherwise agrees with it -/
-theorem C17_nested_simulation (K : Nat → List Nat) (fuel : Nat) (r : Reg) (a : Abs) (cmd : Cmd)
-    (h : WFP gcCfg r a.1) (hp : pendList r = a.2) :
+theorem C17_nested_simulation (K : Nat → List Nat) (hK : NoNull K) (fuel : Nat) (r : Reg) (a : Abs) (cmd : Cmd)
+    (h : WFP gcCfg r a.1) (hp : pendList r = a.2) (hc : CmdOk r cmd) :
     Sim gcCfg r.running r.pending.size (exec gcCfg K fuel r cmd) (absExec K r.running fuel a cmd) :=
-  exec_sim gcCfg gcCfg_good K fuel r a cmd h hp
+  exec_sim gcCfg gcCfg_good K hK fuel r a cmd h hp hc
 
 /-- every reachable state is such a well-formed state (with an empty pending list) -/
 theorem C17_reach_wfp (r : Reg) (L : Ledger) (h : Reach gcCfg r L) : WFP gcCfg r L ∧ pendList r = [] := by
@@ -204,34 +232,272 @@ theorem C17_reach_wfp (r : Reg) (L : Ledger) (h : Reach gcCfg r L) : WFP gcCfg r
     finalisation loop — which skips the slots a destructor has struck off and finalises a struck-off object at once —
     refines `absFinLoop` on (kept ledger, `order`) with the same deallocation trace; the final state is well formed for the
     resulting ledger, with an empty pending list. -/
-theorem C17_sweep_destructors (K : Nat → List Nat) (r : Reg) (L : Ledger) (mk : Nat → Bool → Bool)
+theorem C17_sweep_destructors (K : Nat → List Nat) (hK : NoNull K) (r : Reg) (L : Ledger) (mk : Nat → Bool → Bool)
     (h : Core gcCfg r L mk) (hc : r.nitems = occ r.slots) (hroom : Room r) (hb : Bounded r L) (hnd : (L.map Prod.fst).Nodup) :
     ∃ (order : List Nat) (r' : Reg) (a' : AbsO) (t : List Nat),
       gcSweep gcCfg K r = some (r', t) ∧
       absFinLoop K r.running order.length 0 (collectBy L mk, order.map some) [] = some (a', t) ∧
       WF gcCfg r' a'.1 ∧ r'.running = r.running ∧ order.Nodup ∧
       (∀ p, p ∈ order ↔ ∃ b, (p, b) ∈ L ∧ (p, b) ∉ collectBy L mk) :=
-  gcSweep_simO gcCfg gcCfg_good K r L mk h hc hroom hb hnd
+  gcSweep_simO gcCfg gcCfg_good K hK r L mk h hc hroom hb hnd
 
 /-- **C17 with destructors that delete other objects.**  `ReachK K` are the model states reached by a history of the same
-    operations when the destructor of `p` deletes the objects `K p`, each paired with a ledger obtained by the abstract
-    transitions `LedgerK` (deletion = `absExecO` on the ledger; collection = reclaim the unmarked non-roots in some order and run
-    `absFinLoop`).  In every such state the registry is exact for that ledger. -/
-theorem C17_registry_exact_destructors (K : Nat → List Nat) (r : Reg) (L : Ledger) (h : ReachK gcCfg K r L) : Exact gcCfg r L := by
-  have hwf := reachK_wf gcCfg K r L h
+    operations when the destructor of `p` deletes the objects `K p` (none of them NULL), each paired with *any* ledger obtained
+    by the abstract transitions `LedgerK` (deletion = `absExecO` on the ledger; collection = reclaim the unmarked non-roots in
+    some order and run `absFinLoop`).  `ReachK` has no well-formedness premise: the theorem is an induction over the history
+    (`reachK_wf`), whose step is `ledgerK_wf` — the model's next state is well formed for every ledger `LedgerK` allows.  In
+    every such state the registry is exact for that ledger. -/
+theorem C17_registry_exact_destructors (K : Nat → List Nat) (hK : NoNull K) (r : Reg) (L : Ledger) (h : ReachK gcCfg K r L) :
+    Exact gcCfg r L := by
+  have hwf := reachK_wf gcCfg gcCfg_good K hK r L h
   refine ⟨wf_mem gcCfg r L hwf, hwf.core.ents, hwf.core.inv.distinct, ⟨wf_count gcCfg r L hwf, hwf.count⟩,
     hwf.bounded.bounds, hwf.core.inv, ?_, hwf.pend⟩
   rcases Nat.eq_zero_or_pos r.n with h0 | hn
   · exact Or.inl h0
   · exact Or.inr (empty_of_room r hwf.count hn hwf.room)
 
+/-- **The choice of ledger is immaterial**: the abstract transition of a collection is a relation only because the order in
+    which the sweep lists the reclaimed objects is left open; any two ledgers that explain the same operation from the same
+    ledger have the same members (the nested finalisation is a depth-first traversal of the "destructor of p deletes q" graph:
+    whatever the order, exactly the objects reachable from a reclaimed one through live objects leave the ledger). -/
+theorem C17_ledger_choice_irrelevant (K : Nat → List Nat) (r : Reg) (L : Ledger) (hnd : (L.map Prod.fst).Nodup) (op : Op)
+    (hok : okOp L op) (L1 L2 : Ledger) (h1 : LedgerK K r L op L1) (h2 : LedgerK K r L op L2) : ∀ x, x ∈ L1 ↔ x ∈ L2 :=
+  ledgerK_members K r L op L1 L2 hnd hok h1 h2
+
 /-- … and every history can be continued: for every admissible operation the model answers (nested destructors terminate
-    within the model's fuel, no division by zero, no endless probe), some abstract ledger transition explains the step, and
-    the new state is again exact for the new ledger.  Hence every history has such a ledger evolution. -/
-theorem C17_progress_destructors (K : Nat → List Nat) (r : Reg) (L : Ledger) (h : ReachK gcCfg K r L) (op : Op) (hok : okOp L op) :
+    within the model's fuel, no division by zero, no endless probe, no `destruct(NULL)`), some abstract ledger transition
+    explains the step, and the new state is again reachable (hence exact) for the new ledger. -/
+theorem C17_progress_destructors (K : Nat → List Nat) (hK : NoNull K) (r : Reg) (L : Ledger) (h : ReachK gcCfg K r L) (op : Op)
+    (hok : okOp L op) :
     ∃ r' L', stepK gcCfg K r op = some r' ∧ LedgerK K r L op L' ∧ ReachK gcCfg K r' L' := by
-  obtain ⟨r', L', h1, h2, h3⟩ := stepK_wf gcCfg gcCfg_good K r L (reachK_wf gcCfg K r L h) op hok
-  exact ⟨r', L', h1, h2, ReachK.step h hok h1 h2 h3⟩
+  obtain ⟨r', L', h1, h2, _⟩ := stepK_wf gcCfg gcCfg_good K hK r L (reachK_wf gcCfg gcCfg_good K hK r L h) op hok
+  exact ⟨r', L', h1, h2, ReachK.step h hok h1 h2⟩
+
+/-! ### excluded region 1: a destructor that calls `del(NULL)` (known finding KF-C17-null-del-sweep) -/
+
+/-- the progress statement without `NoNull K` -/
+def C17_progress_all_destructors_statement : Prop :=
+  ∀ (K : Nat → List Nat) (r : Reg) (L : Ledger), ReachK gcCfg K r L → ∀ op, okOp L op →
+    ∃ r' L', stepK gcCfg K r op = some r' ∧ LedgerK K r L op L' ∧ ReachK gcCfg K r' L'
+
+/-- the destructor of the object at address 64 calls `del(NULL)` -/
+def nullK : Nat → List Nat := fun p => if p = 64 then [0] else []
+
+/-- **`del(NULL)` in a destructor: fine under `del`, fatal under collection.**  After `new` of one object whose destructor calls
+    `del(NULL)` (state `r`, reachable, ledger `[(64, false)]`): the explicit `del` of the object answers — GC_Rem_Ptr probes for
+    NULL, finds nothing, returns — and leaves an empty registry; a collection that reclaims the same object does not answer:
+    GC_Sweep clears the object's pending slot before it runs the destructor, GC_Rem_Ptr(NULL) matches that slot and runs
+    `dealloc(destruct(NULL))` (ValueError raised by `type_of` inside the collector, the rest of the pending list is never
+    finalised).  The C code does the same (harness op `killnull`, corpus/kf_c17_null_del_sweep.ops). -/
+theorem C17_null_del_in_sweep_refuted :
+    ∃ r, ReachK gcCfg nullK r [(64, false)] ∧
+      (stepK gcCfg nullK r (.del 64)).map (fun r' => (r'.nitems, r'.pending.size)) = some (0, 0) ∧
+      stepK gcCfg nullK r (.sweep []) = none := by
+  have hs : (stepK gcCfg nullK Reg.init (.new 64 false [64])).isSome = true := by decide +kernel
+  obtain ⟨r, hr⟩ := Option.isSome_iff_exists.1 hs
+  have hd : ((stepK gcCfg nullK Reg.init (.new 64 false [64])).bind (fun r => stepK gcCfg nullK r (.del 64))).map
+      (fun r' => (r'.nitems, r'.pending.size)) = some (0, 0) := by decide +kernel
+  have hw : ((stepK gcCfg nullK Reg.init (.new 64 false [64])).bind (fun r => stepK gcCfg nullK r (.sweep []))).isNone = true := by
+    decide +kernel
+  rw [hr] at hd hw
+  refine ⟨r, ?_, hd, ?_⟩
+  · refine ReachK.step ReachK.init (show okOp [] (.new 64 false [64]) from ⟨by simp, by decide, by decide⟩) hr ?_
+    refine LedgerK.new_collect 64 false [64] _ rfl (by decide) ⟨[], (collectL [(64, false)] [64], []), [], List.nodup_nil, ?_, rfl, by decide⟩
+    intro p
+    constructor
+    · intro h; cases h
+    · rintro ⟨b, h1, h2⟩
+      have : collectL [(64, false)] [64] = [(64, false)] := by decide
+      rw [this] at h2; exact absurd h1 h2
+  · cases h : stepK gcCfg nullK r (.sweep []) with
+    | none => rfl
+    | some r' => simp [h] at hw
+
+theorem C17_progress_all_destructors_refuted : ¬ C17_progress_all_destructors_statement := by
+  intro hall
+  obtain ⟨r, hr, _, hnone⟩ := C17_null_del_in_sweep_refuted
+  obtain ⟨r', _, h, _⟩ := hall nullK r _ hr (.sweep []) trivial
+  rw [hnone] at h; cases h
+
+/-- destructors that do not delete NULL exist and include every `K` the harness generates for the differential check -/
+example : NoNull (fun p => if p = 64 then [72, 64] else []) := by
+  intro p; by_cases h : p = 64 <;> simp [h]
+
+/-! ### excluded region 2: allocation and deletion while the collector is stopped (F23; known finding KF-C17-stopped) -/
+
+/-- the full statement against the ledger of the property text (`idealStep`: every managed allocation adds, every `del`
+    removes, whatever the `running` flag; the flag itself is a function of the history) -/
+def C17_ideal_statement : Prop := ∀ (r : Reg) (S : Ledger × Bool), ReachI gcCfg r S → Exact gcCfg r S.1
+
+/-- **Outside the stopped window the registry is exact for the ledger of the property text**: on every history in which no
+    managed allocation and no `del` happens between `stop` and `start`, at every step.  (`Quiet`, an explicit decidable
+    condition on the history: the flag in `S` is computed from the `stop` / `start` operations alone.) -/
+theorem C17_registry_exact_ideal_partial (r : Reg) (S : Ledger × Bool) (h : ReachQ gcCfg r S) :
+    Exact gcCfg r S.1 ∧ r.running = S.2 := by
+  obtain ⟨h1, h2⟩ := reachQ_reach gcCfg gcCfg_good r S h
+  exact ⟨C17_registry_exact r S.1 h1, h2⟩
+
+/-- **Inside the window the property text is violated**: `new 64; stop; del 64` — GC_Rem returns at once because the collector
+    is not running, so `mem(gc, 64)` still holds and `nitems` is still 1 for an object the program has deleted. -/
+theorem C17_stopped_window_refuted : ¬ C17_ideal_statement := by
+  intro hall
+  obtain ⟨r1, hs1, hr1⟩ := C17_progress Reg.init [] Reach.init (.new 64 false [64]) ⟨by simp, by decide, by decide⟩
+  have hL1 : ledgerStep Reg.init [] (.new 64 false [64]) = [(64, false)] := by decide
+  rw [hL1] at hr1
+  have hi1 : ReachI gcCfg r1 ([(64, false)], true) := by
+    have := ReachI.step ReachI.init (show okOp [] (.new 64 false [64]) from ⟨by simp, by decide, by decide⟩) hs1
+    have e : idealStep Reg.init ([], true) (.new 64 false [64]) = ([(64, false)], true) := by decide
+    rw [e] at this; exact this
+  have hr2 : Reach gcCfg (gcStop r1) [(64, false)] := Reach.step hr1 (op := .stop) trivial rfl
+  have hi2 : ReachI gcCfg (gcStop r1) ([(64, false)], false) := ReachI.step hi1 (op := .stop) trivial rfl
+  obtain ⟨r3, hs3, hr3⟩ := C17_progress (gcStop r1) _ hr2 (.del 64) trivial
+  have hL3 : ledgerStep (gcStop r1) [(64, false)] (.del 64) = [(64, false)] := by simp [ledgerStep, gcStop]
+  rw [hL3] at hr3
+  have hi3 : ReachI gcCfg r3 ([], false) := by
+    have := ReachI.step hi2 (op := .del 64) trivial hs3
+    have e : idealStep (gcStop r1) ([(64, false)], false) (.del 64) = ([], false) := by simp [idealStep]
+    rw [e] at this; exact this
+  have m1 := (C17_registry_exact r3 _ hr3).mem 64
+  have m2 := (hall r3 _ hi3).mem 64
+  rw [m1] at m2
+  simp at m2
+
+/-- histories outside the window reach non-trivial states (hypothesis of `C17_registry_exact_ideal_partial`) -/
+example : ∃ r, ReachQ gcCfg r ([(64, false)], false) := by
+  obtain ⟨r1, hs1, _⟩ := C17_progress Reg.init [] Reach.init (.new 64 false [64]) ⟨by simp, by decide, by decide⟩
+  have h1 := ReachQ.step ReachQ.init (show okOp [] (.new 64 false [64]) from ⟨by simp, by decide, by decide⟩) rfl hs1
+  have e : idealStep Reg.init ([], true) (.new 64 false [64]) = ([(64, false)], true) := by decide
+  rw [e] at h1
+  exact ⟨gcStop r1, ReachQ.step h1 (op := .stop) trivial trivial rfl⟩
+
+/-! ### excluded region 3: `dealloc` / `dealloc_root` of a registered object (known finding KF-C17-dealloc-stale) -/
+
+/-- the full statement when histories may also release managed objects with `dealloc` / `dealloc_raw` / `dealloc_root` -/
+def C17_with_dealloc_statement : Prop := ∀ (r : Reg) (L : Ledger), ReachD gcCfg r L → Exact gcCfg r L
+
+/-- **`dealloc` leaves a stale entry**: `alloc` (or `alloc_root`) followed by the `dealloc` (`dealloc_root`) Alloc's
+    documentation pairs it with — the block is freed and the collector is not told, so `mem(gc, p)` keeps holding and
+    `nitems` keeps counting an object that no longer exists. -/
+theorem C17_dealloc_refuted : ¬ C17_with_dealloc_statement := by
+  intro hall
+  obtain ⟨r1, _, hr1⟩ := C17_progress Reg.init [] Reach.init (.new 64 false [64]) ⟨by simp, by decide, by decide⟩
+  have hL1 : ledgerStep Reg.init [] (.new 64 false [64]) = [(64, false)] := by decide
+  rw [hL1] at hr1
+  have hd : ReachD gcCfg r1 [] := by
+    have := ReachD.dealloc 64 (reach_reachD gcCfg r1 _ hr1)
+    simpa using this
+  have m1 := (C17_registry_exact r1 _ hr1).mem 64
+  have m2 := (hall r1 _ hd).mem 64
+  rw [m1] at m2
+  simp at m2
+
+/-- **… and when malloc hands the address out again the object is counted twice and keeps the old root flag**:
+    `p = alloc(T); dealloc(p); q = alloc_root(T)` with `q = p` (admissible: the address is not live) — GC_Set increments
+    `nitems` before GC_Set_Ptr finds the equal pointer and returns: `nitems = 2` for one occupied slot, whose entry still says
+    `root = false` although the live object was allocated as a root. -/
+def slot3 (r : Reg) : Option (Nat × Nat × Bool × Bool) :=
+  if h : 3 < r.n then r.slots[3].map (fun e => (e.key, e.home, e.val.root, e.val.marked)) else none
+
+theorem C17_dealloc_reuse_refuted :
+    ∃ r, ReachD gcCfg r [(64, true)] ∧ r.nitems = 2 ∧ occ r.slots = 1 ∧
+      Mem r.slots ⟨64, hashOf gcCfg 64 % r.n, ⟨false, false⟩⟩ ∧ ¬ Exact gcCfg r [(64, true)] := by
+  have hs : ((step gcCfg Reg.init (.new 64 false [64])).bind (fun r => step gcCfg r (.new 64 true [64]))).isSome = true := by
+    decide +kernel
+  obtain ⟨r2, h2⟩ := Option.isSome_iff_exists.1 hs
+  obtain ⟨r1, h1, h12⟩ := Option.bind_eq_some_iff.1 h2
+  have hv : ((step gcCfg Reg.init (.new 64 false [64])).bind (fun r => step gcCfg r (.new 64 true [64]))).map
+      (fun r => (r.nitems, r.mitems, occ r.slots, r.n, r.running)) = some (2, 2, 1, 5, true) := by decide +kernel
+  have hv' : ((step gcCfg Reg.init (.new 64 false [64])).bind (fun r => step gcCfg r (.new 64 true [64]))).map slot3 =
+      some (some (64, 3, false, false)) := by decide +kernel
+  rw [h2] at hv hv'
+  simp only [Option.map_some, Option.some.injEq, Prod.mk.injEq] at hv hv'
+  obtain ⟨hni, hmi, hocc, hn, hrun⟩ := hv
+  have hslot := hv'
+  have hv1 : (step gcCfg Reg.init (.new 64 false [64])).map (fun r => (r.nitems, r.mitems, r.running)) = some (1, 2, true) := by
+    decide +kernel
+  rw [h1] at hv1
+  simp only [Option.map_some, Option.some.injEq, Prod.mk.injEq] at hv1
+  obtain ⟨hni1, hmi1, hrun1⟩ := hv1
+  have hd1 : ReachD gcCfg r1 [(64, false)] := by
+    have := ReachD.step ReachD.init (show okOp [] (.new 64 false [64]) from ⟨by simp, by decide, by decide⟩) h1
+    have e : ledgerStep Reg.init [] (.new 64 false [64]) = [(64, false)] := by decide
+    rw [e] at this; exact this
+  have hd2 : ReachD gcCfg r1 [] := by simpa using ReachD.dealloc 64 hd1
+  have hd3 : ReachD gcCfg r2 [(64, true)] := by
+    have := ReachD.step hd2 (show okOp [] (.new 64 true [64]) from ⟨by simp, by decide, by decide⟩) h12
+    have e : ledgerStep r1 [] (.new 64 true [64]) = [(64, true)] := by simp [ledgerStep, hrun1, hni1, hmi1]
+    rw [e] at this; exact this
+  have hmem : Mem r2.slots ⟨64, hashOf gcCfg 64 % r2.n, ⟨false, false⟩⟩ := by
+    have h3 : 3 < r2.n := by omega
+    unfold slot3 at hslot
+    rw [dif_pos h3] at hslot
+    refine ⟨3, h3, ?_⟩
+    cases he : r2.slots[3] with
+    | none => rw [he] at hslot; cases hslot
+    | some e =>
+      rw [he] at hslot
+      simp only [Option.map_some, Option.some.injEq, Prod.mk.injEq] at hslot
+      obtain ⟨a, b, c, d⟩ := hslot
+      have : hashOf gcCfg 64 % r2.n = 3 := by rw [hn]; decide
+      rw [this]
+      exact congrArg some (ent_eta e _ _ _ _ a b c d)
+  refine ⟨r2, hd3, hni, hocc, hmem, ?_⟩
+  intro hex
+  have := hex.count.1
+  rw [hni] at this
+  simp at this
+
+/-- the stored (address, root flag) pairs in slot order -/
+def slotKeys (r : Reg) : List (Option (Nat × Bool)) := r.slots.toList.map (fun o => o.map (fun e => (e.key, e.val.root)))
+
+/-- **… or even recorded twice**: GC_Set_Ptr's equal-pointer test only fires if the stale entry is met before the carried entry
+    is swapped (`j >= p` displaces a resident at equal distance).  With two colliding addresses (64 and 104, both at home 3 of 5)
+    `alloc(64); alloc(104); dealloc(64); alloc_root(64)`: the new entry for 64 takes slot 3, pushes 104 on, 104 pushes the stale
+    entry of 64 on — the table ends with two entries for address 64 (one per root flag) and `nitems = 3` for two live objects. -/
+theorem C17_dealloc_twice_refuted :
+    ∃ r, ReachD gcCfg r [(64, true), (104, false)] ∧
+      slotKeys r = [some (64, false), none, none, some (64, true), some (104, false)] ∧ r.nitems = 3 ∧
+      ¬ Exact gcCfg r [(64, true), (104, false)] := by
+  have hs : (((step gcCfg Reg.init (.new 64 false [64])).bind (fun r => step gcCfg r (.new 104 false []))).bind
+      (fun r => step gcCfg r (.new 64 true [64, 104]))).isSome = true := by decide +kernel
+  obtain ⟨r3, h3⟩ := Option.isSome_iff_exists.1 hs
+  obtain ⟨r2, h2, h23⟩ := Option.bind_eq_some_iff.1 h3
+  obtain ⟨r1, h1, h12⟩ := Option.bind_eq_some_iff.1 h2
+  have hv3 : (((step gcCfg Reg.init (.new 64 false [64])).bind (fun r => step gcCfg r (.new 104 false []))).bind
+      (fun r => step gcCfg r (.new 64 true [64, 104]))).map (fun r => (slotKeys r, r.nitems)) =
+      some ([some (64, false), none, none, some (64, true), some (104, false)], 3) := by decide +kernel
+  rw [h3] at hv3
+  simp only [Option.map_some, Option.some.injEq, Prod.mk.injEq] at hv3
+  have hv2 : ((step gcCfg Reg.init (.new 64 false [64])).bind (fun r => step gcCfg r (.new 104 false []))).map
+      (fun r => (r.nitems, r.mitems, r.running)) = some (2, 2, true) := by decide +kernel
+  rw [h2] at hv2
+  simp only [Option.map_some, Option.some.injEq, Prod.mk.injEq] at hv2
+  obtain ⟨hni2, hmi2, hrun2⟩ := hv2
+  have hv1 : (step gcCfg Reg.init (.new 64 false [64])).map (fun r => (r.nitems, r.mitems, r.running)) = some (1, 2, true) := by
+    decide +kernel
+  rw [h1] at hv1
+  simp only [Option.map_some, Option.some.injEq, Prod.mk.injEq] at hv1
+  obtain ⟨hni1, hmi1, hrun1⟩ := hv1
+  have hd1 : ReachD gcCfg r1 [(64, false)] := by
+    have := ReachD.step ReachD.init (show okOp [] (.new 64 false [64]) from ⟨by simp, by decide, by decide⟩) h1
+    have e : ledgerStep Reg.init [] (.new 64 false [64]) = [(64, false)] := by decide
+    rw [e] at this; exact this
+  have hd2 : ReachD gcCfg r2 [(104, false), (64, false)] := by
+    have := ReachD.step hd1 (show okOp [(64, false)] (.new 104 false []) from ⟨by simp, by decide, by decide⟩) h12
+    have e : ledgerStep r1 [(64, false)] (.new 104 false []) = [(104, false), (64, false)] := by
+      simp [ledgerStep, hrun1, hni1, hmi1]
+    rw [e] at this; exact this
+  have hd2' : ReachD gcCfg r2 [(104, false)] := by simpa using ReachD.dealloc 64 hd2
+  have hd3 : ReachD gcCfg r3 [(64, true), (104, false)] := by
+    have := ReachD.step hd2' (show okOp [(104, false)] (.new 64 true [64, 104]) from ⟨by simp, by decide, by decide⟩) h23
+    have e : ledgerStep r2 [(104, false)] (.new 64 true [64, 104]) = [(64, true), (104, false)] := by
+      simp [ledgerStep, hrun2, hni2, hmi2, collectL]
+    rw [e] at this; exact this
+  refine ⟨r3, hd3, hv3.1, hv3.2, ?_⟩
+  intro hex
+  have := hex.count.1
+  rw [hv3.2] at this
+  simp at this
 
 /-! ### non-vacuity: concrete histories and states -/
 
@@ -271,13 +537,13 @@ example :
 /-- reachable states with a non-empty ledger exist (so `C17_registry_exact` is not vacuous): by `C17_progress` any
     admissible operation extends a history -/
 example : ∃ r, Reach gcCfg r [(8, false)] := by
-  obtain ⟨r', _, h⟩ := C17_progress Reg.init [] Reach.init (.new 8 false [8]) ⟨by simp, by decide⟩
+  obtain ⟨r', _, h⟩ := C17_progress Reg.init [] Reach.init (.new 8 false [8]) ⟨by simp, by decide, by decide⟩
   exact ⟨r', h⟩
 
 /-- histories with destructors reach states with a non-empty ledger (hypothesis of `C17_registry_exact_destructors`): the
     first allocation reaches the threshold, the collection it triggers marks it, and it survives -/
-example (K : Nat → List Nat) : ∃ r, ReachK gcCfg K r [(8, false)] := by
-  obtain ⟨r1, L1, _, hl1, h1⟩ := C17_progress_destructors K Reg.init [] ReachK.init (.new 8 false [8]) ⟨by simp, by decide⟩
+example (K : Nat → List Nat) (hK : NoNull K) : ∃ r, ReachK gcCfg K r [(8, false)] := by
+  obtain ⟨r1, L1, _, hl1, h1⟩ := C17_progress_destructors K hK Reg.init [] ReachK.init (.new 8 false [8]) ⟨by simp, by decide, by decide⟩
   cases hl1 with
   | new_plain _ _ _ _ hth => exact absurd (by decide : Reg.init.nitems + 1 > Reg.init.mitems) hth
   | new_stopped _ _ _ hrun => exact absurd hrun (by decide)
